@@ -186,19 +186,47 @@ def structure(ctx):
             not is_within(d0.stmt, loop):
         ctx.bad("C05.R3", it, d0.node, "the deletion does not follow the yield")
     # condition tests the offered payload against emptiness
-    conds = [t for t, pol in guards(d0.stmt, stop=loop) if pol]
-    ctext = " ".join(text(t) for t in conds).replace(" ", "")
-    need = ["len(%s)==0" % ref.id, "%s==%s.getDefault()" % (ref.id, dst)]
-    missing = [n for n in need if n not in ctext]
-    if conds and not missing:
-        ctx.ok("C05.R3", it, d0.stmt, "removal only when the offered payload is "
-               "still empty / equal to the default")
-    else:
-        ctx.bad("C05.R3", it, d0.stmt, "the removal is %s: elements the body "
-                "did write are removed (or untouched ones kept)"
-                % ("unconditional" if not conds else
-                   "not conditioned on %s" % missing),
+    gs = guards(d0.stmt, stop=loop, asserts=False)
+    cond = [frozenset()]
+    for t, pol in gs:
+        d = pat.dnf(t, pol)
+        if d is None:
+            raise AnalysisError("C05.R3: removal condition too large for DNF")
+        cond = [a | b for a in cond for b in d]
+    cond = [d for d in cond if not any((t, not q) in d for t, q in d)]
+    is_fiber = "isinstance(%s,type(%s))" % (ref.id, dst)
+    len0 = ("len(%s)==0" % ref.id, True)
+    eqdef = ("%s==%s.getDefault()" % (ref.id, dst), True)
+    fiber_d = [d for d in cond if len0 in d and (is_fiber, True) in d]
+    # the leaf disjunct: nothing but `not a fiber` and `== default` -- a value
+    # the body set back to the default must go whether or not the element
+    # existed before the loop
+    leaf_d = [d for d in cond if eqdef in d and d <= {eqdef, (is_fiber, False)}]
+    stray = [d for d in cond if len0 not in d and eqdef not in d]
+    if not gs:
+        ctx.bad("C05.R3", it, d0.stmt, "the removal is unconditional: elements "
+                "the body did write are removed", text_="populate removal condition")
+    elif stray:
+        ctx.bad("C05.R3", it, d0.stmt, "the removal also happens when %s, with "
+                "no test that the offered payload is still empty / the default: "
+                "elements the body did write are removed"
+                % sorted(t if q else "not " + t for t, q in stray[0]),
                 text_="populate removal condition")
+    elif not fiber_d:
+        ctx.bad("C05.R3", it, d0.stmt, "the removal is not conditioned on "
+                "['%s']: elements the body did write are removed (or untouched "
+                "ones kept)" % len0[0], text_="populate removal condition")
+    elif not leaf_d:
+        extra = sorted({(t if q else "not " + t) for d in cond if eqdef in d
+                        for t, q in d - {eqdef, (is_fiber, False)}})
+        ctx.bad("C05.R3", it, d0.stmt, "a leaf value equal to the default is "
+                "removed only when additionally %s: a coordinate the body set "
+                "back to the default (or left at an explicit default) keeps "
+                "its element" % (extra or "[no `== default` test at all]"),
+                text_="populate removal condition")
+    else:
+        ctx.ok("C05.R3", it, d0.stmt, "removal exactly when the offered "
+               "sub-fiber is still empty or the leaf equals the default")
     # counter bookkeeping
     pb = parent_block(d0.stmt)
     blk = pb[0] if pb else []
